@@ -1,6 +1,6 @@
 (* Extraction of the C19 constant-pool model (ExtrOcamlBasic only; numbers stay Coq's positive/Z/nat datatypes). *)
 From Coq Require Extraction ExtrOcamlBasic.
-From Verif Require Import ConstPool.ConstPoolModel.
+From Verif Require Import ConstPool.ConstPoolModel ConstPool.ConstPoolJudge ConstPool.ConstPoolPartition.
 Extraction Blacklist List String Int.
 Extraction "constpool.ml" ConstPoolModel.cp_init ConstPoolModel.cp_add ConstPoolModel.cp_fill
-  ConstPoolModel.psize ConstPoolModel.palign ConstPoolModel.pmin.
+  ConstPoolModel.psize ConstPoolModel.palign ConstPoolModel.pmin ConstPoolModel.gaps ConstPoolModel.embed_layout ConstPoolJudge.judge ConstPoolPartition.lost_step.
